@@ -187,7 +187,7 @@ class Run:
             if exact is not None:
                 t = int(exact[0][4:])
             labels = [f"adv:{t}"]
-            loop._vt = self.t0 - simnet.CLOCK_BASE + t / U
+            loop._vt = self.t0 - loop.base + t / U
         elif label.startswith("record"):
             import zeroconf
             from zeroconf import DNSPointer, DNSAddress
@@ -456,7 +456,7 @@ def slow_hook_probe(n_failures, record_at, stage="start"):
                     nt = loop.next_timer()
                     if nt is None:
                         break
-                    await simnet.advance(loop, to=nt + simnet.CLOCK_BASE)
+                    await simnet.advance(loop, to=nt + loop.base)
                 if len(cli.attempt_times) == n_attempts:
                     return gaps, list(log), f"no attempt after failure {k}"
                 gaps.append(cli.attempt_times[-1] - t_done)
@@ -543,7 +543,7 @@ def integration_probe(scenario):
                         nt = loop.next_timer()
                         if nt is None:
                             break
-                        await simnet.advance(loop, to=nt + simnet.CLOCK_BASE)
+                        await simnet.advance(loop, to=nt + loop.base)
                     n_err = sum(1 for e in events if e.startswith("error"))
                     n_lookups = len(FakeInfo.calls)
                     live = [z for z in LiveAioZc.instances if z.zeroconf.listeners]
@@ -683,7 +683,7 @@ def long_failure_run(n):
                     nt = loop.next_timer()
                     if nt is None:
                         break
-                    await simnet.advance(loop, to=nt + simnet.CLOCK_BASE)
+                    await simnet.advance(loop, to=nt + loop.base)
                 if len(cli.attempt_times) == n_att:
                     return k, "no attempt after this failure"
                 gap = cli.attempt_times[-1] - t_fail
